@@ -156,6 +156,19 @@ def FV(x) -> List[float]:
     return [F(c) for c in x]
 
 
+# point lists are handed to the library the way a user gets them from np.linspace / np.loadtxt: as float64 arrays
+# the caller keeps; every array built for the entity under test is remembered here with a snapshot
+CALLER_ARRAYS: List[Any] = []
+
+
+def caller_array(pts):
+    import numpy as np
+
+    a = np.array(pts, dtype=np.float64)
+    CALLER_ARRAYS.append((a, a.copy()))
+    return a
+
+
 def build_curve(s: dict):
     import classy_blocks as cb
 
@@ -166,7 +179,7 @@ def build_curve(s: dict):
         b = s.get("b")
         bounds = (F(b[0]), F(b[1])) if b else (0, 2 * math.pi)
         return cb.CircleCurve(FV(s["o"]), FV(s["rim"]), FV(s["n"]), bounds)
-    pts = [FV(p) for p in s["pts"]]
+    pts = caller_array([FV(p) for p in s["pts"]])
     if c == "discrete":
         return cb.DiscreteCurve(pts)
     if c == "linear":
@@ -192,9 +205,9 @@ def build_edge(s: Optional[dict]):
     if k == "angle":
         return cb.Angle(F(s["th"]), FV(s["ax"]))
     if k == "spline":
-        return cb.Spline([FV(p) for p in s["pts"]])
+        return cb.Spline(caller_array([FV(p) for p in s["pts"]]))
     if k == "polyline":
-        return cb.PolyLine([FV(p) for p in s["pts"]])
+        return cb.PolyLine(caller_array([FV(p) for p in s["pts"]]))
     if k == "project":
         return cb.Project(list(s["l"]))
     if k == "curve":
@@ -237,6 +250,32 @@ def build_step_objects(steps: List[dict]):
     return out
 
 
+def np_v(x):
+    import numpy as np
+
+    return np.array([F(c) for c in x])
+
+
+def make_group(ops):
+    """A user-side collection of operations (what one adds to a Mesh one by one), transformed as a whole."""
+    import numpy as np
+    from classy_blocks.base.element import ElementBase
+
+    class Group(ElementBase):
+        def __init__(self, operations):
+            self.operations = operations
+
+        @property
+        def parts(self):
+            return self.operations
+
+        @property
+        def center(self):
+            return np.average([o.center for o in self.operations], axis=0)
+
+    return Group(ops)
+
+
 def build(s: dict):
     import classy_blocks as cb
     from classy_blocks.construct.array import Array
@@ -250,7 +289,25 @@ def build(s: dict):
     if t == "point":
         return Point(FV(s["p"]))
     if t == "array":
-        return Array([FV(p) for p in s["pts"]])
+        return Array(caller_array([FV(p) for p in s["pts"]]))
+    if t == "sharedspline":
+        # two lofts side by side whose common vertical edge is a spline described ONCE, by one array
+        fr = [np_v(x) for x in s["frame"]]
+        pts = caller_array([FV(p) for p in s["pts"]])
+
+        def box(x0):
+            def P(x, y, z):
+                return list(fr[0] + x * fr[1] + y * fr[2] + z * fr[3])
+
+            return cb.Loft(
+                cb.Face([P(x0, 0, 0), P(x0 + 1, 0, 0), P(x0 + 1, 1, 0), P(x0, 1, 0)]),
+                cb.Face([P(x0, 0, 1), P(x0 + 1, 0, 1), P(x0 + 1, 1, 1), P(x0, 1, 1)]),
+            )
+
+        left, right = box(0), box(1)
+        left.add_side_edge(1, (cb.PolyLine if s.get("poly") else cb.Spline)(pts))
+        right.add_side_edge(0, (cb.PolyLine if s.get("poly") else cb.Spline)(pts))
+        return make_group([left, right])
     if t == "edge":
         return build_edge(s["e"])
     if t == "curve":
@@ -385,6 +442,8 @@ def kind_of(e) -> str:
         return "joint"
     if isinstance(e, Assembly):
         return "asm"
+    if type(e).__name__ == "Group":  # the harness' own collection of operations: centre = average of theirs
+        return "shape"
     return "other"
 
 
@@ -392,6 +451,8 @@ class Walk:
     """Assigns cells to the leaf objects of a part tree in first-visit order and produces the tree in post-order."""
 
     def __init__(self):
+        self.buffers: Dict[int, int] = {}  # address of an Array's buffer -> first cell
+        self.shared_buffers = 0
         self.cell_of: Dict[int, int] = {}  # id(object) -> first cell
         self.keep: List[Any] = []  # keeps the objects alive so that id() stays unique
         self.n_cells = 0
@@ -422,21 +483,34 @@ class Walk:
                 out.append(("P", c, [float(v) for v in x.position]) if values else ("P", c))
             elif isinstance(x, Array):
                 n = len(x.points)
+                addr = x.points.__array_interface__["data"][0]
+                if id(x) not in self.cell_of and addr in self.buffers:
+                    # a second Array object on the same memory: the same cells (it will be moved twice)
+                    self.cell_of[id(x)] = self.buffers[addr]
+                    self.keep.append(x)
+                    self.shared_buffers += 1
                 c = self._cell(x, n)
+                self.buffers.setdefault(addr, c)
                 rows = [[float(v) for v in r] for r in x.points]
                 out.append(("A", c, rows) if values else ("A", c, n))
             else:
+                k = kind_of(x)
+                # InterpolatedCurveBase.parts invalidates the cached interpolation function: observe the flag
+                # first and put it back afterwards, looking at the object must not change it
+                valid = getattr(getattr(x, "function", None), "_valid", None) if k == "icurve" else None
                 parts = list(x.parts)
+                if valid is not None:
+                    x.function._valid = valid
                 for p in parts:
                     rec(p)
-                attr = float(x.angle) if kind_of(x) == "angle" else 0.0
-                out.append(("N", kind_of(x), attr, len(parts)))
+                attr = float(x.angle) if k == "angle" else (1.0 if valid else 0.0) if k == "icurve" else 0.0
+                out.append(("N", k, attr, len(parts)))
 
         rec(e)
         return out
 
     def aliased(self) -> int:
-        return sum(1 for v in self.visits.values() if v > 1)
+        return sum(1 for v in self.visits.values() if v > 1) + self.shared_buffers
 
 
 def heap_of(tokens_with_values, n_cells: int) -> List[Optional[List[float]]]:
@@ -1107,6 +1181,8 @@ def _top_class(spec: dict) -> str:
         return "Edge." + spec["e"]["k"]
     if spec["t"] == "curve":
         return "Curve." + spec["c"]
+    if spec["t"] == "sharedspline":
+        return "TwoLoftsOneSplineArray"
     return spec["t"].capitalize()
 
 
@@ -1170,6 +1246,45 @@ class C09(core.Check):
                         spec = gen_loft(rng, fr, 0.6, [kind])
                     step = next(s for s in iter(lambda: gen_steps(rng, 1, False)[0], None) if s["k"] == tk)
                     cases.append({"kind": "ent", "ent": spec, "steps": [step], "mode": rng.choice(["method", "list"]), "copy": False})
+        # Round 2: interpolated curves transformed directly, by list and by method, with default origins (the centre of
+        # such a curve is an *evaluation* of its cached interpolation function), alone and inside compositions
+        for ck in ("curve-linear", "curve-spline"):
+            for steps_kinds in ("R", "S", "TRS", "MS", "RT", "SR"):
+                for mode in ("list", "method"):
+                    fr = Frame(rng)
+                    p1, p2 = fr.P(0, 0, 0), fr.P(2, Fr(1, 2), 0)
+                    e = gen_edge(rng, p1, p2, ck)
+                    steps = []
+                    for k in steps_kinds:
+                        st = next(x for x in iter(lambda: gen_steps(rng, 1, False)[0], None) if x["k"] == k)
+                        if k in "RS":
+                            st["o"] = None
+                        steps.append(st)
+                    cases.append({"kind": "ent", "ent": {"t": "curve", **e["c"]}, "steps": steps, "mode": mode, "copy": False})
+        # Round 2: point arrays owned by the caller (float64 ndarrays) and translations, which work in place:
+        # spline / polyLine / point-list curves alone, on faces, and ONE array describing the common edge of two lofts
+        for _ in range(4 * mult):
+            fr = Frame(rng)
+            z = [Fr(i, 6) for i in range(1, 6)]
+            pts = [fr.P(1 + Fr(rng.randint(1, 3), 10) * (1 - (2 * t - 1) ** 2), -Fr(rng.randint(1, 3), 10) * (1 - (2 * t - 1) ** 2), t) for t in z]
+            spec = {"t": "sharedspline", "frame": [S(fr.o)] + [S(e) for e in fr.e], "pts": [S(p) for p in pts], "poly": rng.random() < 0.4}
+            steps = gen_steps(rng, rng.choice([1, 2]))
+            steps.insert(rng.randrange(len(steps) + 1), {"k": "T", "d": S(rvec(rng))})
+            cases.append({"kind": "ent", "ent": spec, "steps": steps, "mode": rng.choice(["method", "list"]), "copy": rng.random() < 0.3})
+        for fam in ("array", "edge", "curve", "face"):
+            for _ in range(3 * mult):
+                spec = gen_entity(rng, fam)
+                if fam == "edge":
+                    fr = Frame(rng)
+                    p1, p2 = fr.P(0, 0, 0), fr.P(2, Fr(1, 2), 0)
+                    spec = {"t": "edge", "e": gen_edge(rng, p1, p2, rng.choice(["spline", "polyline", "curve-discrete", "curve-linear"])), "ends": [S(p1), S(p2)]}
+                elif fam == "curve":
+                    fr = Frame(rng)
+                    e = gen_edge(rng, fr.P(0, 0, 0), fr.P(2, Fr(1, 2), 0), rng.choice(["curve-discrete", "curve-linear", "curve-spline"]))
+                    spec = {"t": "curve", **e["c"]}
+                elif fam == "face":
+                    spec = gen_face(rng, Frame(rng), 0, 0.3, ["spline", "polyline", "curve-discrete"])
+                cases.append({"kind": "ent", "ent": spec, "steps": [{"k": "T", "d": S(rvec(rng))}], "mode": rng.choice(["method", "list"]), "copy": rng.random() < 0.3})
         # copies without any transformation
         for fam in ("face", "loft", "shape", "sketch", "curve", "edge"):
             for _ in range(2 * mult):
@@ -1202,7 +1317,13 @@ class C09(core.Check):
                 return self._run_prim(case)
             spec, steps = case["ent"], case["steps"]
             twin = build(spec)
+            CALLER_ARRAYS.clear()
             ent = build(spec)
+            owned = list(CALLER_ARRAYS)
+            # a second entity made from each of the caller's arrays: it must stay where it is
+            from classy_blocks.construct.curves.discrete import DiscreteCurve
+
+            siblings = [DiscreteCurve(a) for a, _ in owned]
             out: Dict[str, Any] = {"cls": type(ent).__name__, "top": kind_of(ent) if not _is_leaf(ent) else "leaf"}
             walk = Walk()
             t0 = walk.tokens(ent, True)
@@ -1227,6 +1348,14 @@ class C09(core.Check):
                 return out
             out["centers"] = centers
             out["mutated"] = mutated
+            out["caller_arrays_modified"] = [
+                {"array": i, "was": snap.tolist(), "is": a.tolist()} for i, (a, snap) in enumerate(owned) if not np.array_equal(a, snap)
+            ]
+            out["siblings_moved"] = [
+                {"array": i, "was": snap.tolist(), "is": sib.array.points.tolist()}
+                for i, ((a, snap), sib) in enumerate(zip(owned, siblings))
+                if not np.array_equal(sib.array.points, snap)
+            ]
             unknown_before = len(walk.cell_of)
             after = walk.tokens(ent, True)
             if case["copy"]:
@@ -1390,6 +1519,10 @@ class C09(core.Check):
             return [{"site": f"{where}:raised", "what": impl["raised"]}]
         for m in impl["mutated"]:
             out.append({"site": f"{where}:argument-modified", "what": f"caller-owned array {m} was modified in place"})
+        for m in impl.get("caller_arrays_modified", [])[:1]:
+            out.append({"site": f"{cls}:{kinds}:callers-point-array-modified", "what": "the point array the entity was created from (owned by the caller) was modified by transforming the entity", "observed": m["is"], "expected": m["was"]})
+        for m in impl.get("siblings_moved", [])[:1]:
+            out.append({"site": f"{cls}:{kinds}:other-entity-moved", "what": "another curve created from the same point array moved when this entity was transformed", "observed": m["is"], "expected": m["was"]})
         if impl["aliased"]:
             out.append({"site": f"{cls}:shared-part", "what": f"{impl['aliased']} leaf objects are reachable twice through .parts (moved twice by every transformation)"})
         centres, aff = self._expected_centres(case, impl)
